@@ -75,7 +75,7 @@ def postOp : Handler := fun req => do
 
 def refOf (j : Json) : Ref := { to := charsD j "to", map := boolD j "map", vec := boolD j "vec", arr := boolD j "arr", wrap := boolD j "wrap" }
 def fldOf (j : Json) : Fld :=
-  { name := charsD j "name", refs := (listD j "refs").map refOf, nested := boolD j "nested", len := boolD j "len", sep := boolD j "sep", sepStr := boolD j "sepStr", dur := boolD j "dur", opt := boolD j "opt", serdeAsAttr := boolD j "serdeAsAttr", asOpt := boolD j "asOpt", hdrOpt := boolD j "hdrOpt", hdrParse := boolD j "hdrParse" }
+  { name := charsD j "name", refs := (listD j "refs").map refOf, nested := boolD j "nested", len := boolD j "len", sep := boolD j "sep", sepStr := boolD j "sepStr", dur := boolD j "dur", opt := boolD j "opt", serdeAsAttr := boolD j "serdeAsAttr", asOpt := boolD j "asOpt", hdrOpt := boolD j "hdrOpt", hdrParse := boolD j "hdrParse", validated := boolD j "validated" }
 def vbOf (j : Json) : Comp.Name × Bool := (charsD j "variant", boolD j "boxed")
 def itemOf (j : Json) : Item :=
   { file := charsD j "file", kind := charsD j "kind", name := charsD j "name", vis := charsD j "vis", ser := boolD j "ser", de := boolD j "de",
@@ -117,6 +117,7 @@ def violStr : Viol → String
   | .missingImport n => s!"derive({String.ofList n}) is used unqualified but not imported"
   | .undefinedConst n => s!"constant {String.ofList n} is used but not defined"
   | .headerParseNoFromStr it t => s!"{String.ofList it}: a header member of type {String.ofList t} is built with str::parse, but {String.ofList t} has no FromStr"
+  | .validatorBinderShadowed it mb => s!"{String.ofList it}.{String.ofList mb}: an Option member with a validate attribute named like a local of the Validate derive (`errors` / `entry`)"
   | .fnShadowsImport f n => s!"{String.ofList f}.rs defines `fn {String.ofList n}` and imports `{String.ofList n}`"
   | .ctorBoxMismatch it v => s!"enum {String.ofList it}: the helper constructor of variant {String.ofList v} and the variant's payload type disagree about Box"
 
